@@ -137,6 +137,7 @@ pub fn classify_offset(m: &Model, off: usize) -> String {
                 What::FEnd => "frame-end".into(),
                 What::End { .. } => "game-end".into(),
                 What::Unknown => "unknown-event".into(),
+                What::SplitUnknown { .. } => "unknown-event-splitter-block".into(),
             };
         }
     }
